@@ -19,7 +19,8 @@ def run_seed(d: Path, props):
     try:
         root = tmp / "repo"
         shutil.copytree("/repo/fickling", root / "fickling")
-        p = subprocess.run(["patch", "-p1", "-s", "-f", "--no-backup-if-mismatch", "-i", str(d / "patch.diff")], cwd=root, capture_output=True, text=True)
+        patch = d / ("patch.rebased.diff" if (d / "patch.rebased.diff").exists() else "patch.diff")
+        p = subprocess.run(["patch", "-p1", "-s", "-f", "--no-backup-if-mismatch", "-i", str(patch)], cwd=root, capture_output=True, text=True)
         if p.returncode:
             return d.name, None, "patch does not apply to the current tree: " + (p.stdout + p.stderr)[-200:]
         res = {}
